@@ -1242,6 +1242,55 @@ func (fo *folder) typeAndFieldRenames(m *Module, rel string, known map[string]st
 			*log = append(*log, rel+".type "+oldName+" renamed to "+tns[0].Name())
 		}
 	}
+	// package-level constants (same type and value) and variables (same type)
+	shapeOf := func(o types.Object) (kind, shape string) {
+		q := types.RelativeTo(p.Types)
+		switch x := o.(type) {
+		case *types.Const:
+			return "const", types.TypeString(x.Type(), q) + "=" + x.Val().ExactString()
+		case *types.Var:
+			return "var", types.TypeString(x.Type(), q)
+		}
+		return "", ""
+	}
+	for _, kind := range []string{"const", "var"} {
+		var freshObjs []types.Object
+		for _, name := range scope.Names() {
+			o := scope.Lookup(name)
+			if k, _ := shapeOf(o); k == kind {
+				if _, isKnown := known[prefix+kind+" "+name]; !isKnown {
+					freshObjs = append(freshObjs, o)
+				}
+			}
+		}
+		cands := map[string][]types.Object{}
+		hits := map[types.Object]int{}
+		for key, shape := range known {
+			if !strings.HasPrefix(key, prefix+kind+" ") || shape == "" {
+				continue
+			}
+			oldName := strings.TrimPrefix(key, prefix+kind+" ")
+			if scope.Lookup(oldName) != nil {
+				continue
+			}
+			for _, o := range freshObjs {
+				if _, sh := shapeOf(o); sh == shape {
+					cands[oldName] = append(cands[oldName], o)
+					hits[o]++
+				}
+			}
+		}
+		for oldName, os := range cands {
+			if len(os) == 1 && hits[os[0]] == 1 {
+				renamed[os[0]] = oldName
+				if m.RenamedObjs == nil {
+					m.RenamedObjs = map[string]types.Object{}
+				}
+				m.RenamedObjs[rel+"\t"+oldName] = os[0]
+				*log = append(*log, rel+"."+kind+" "+oldName+" renamed to "+os[0].Name())
+			}
+		}
+	}
 	// fields of known (or renamed) struct types
 	for _, name := range scope.Names() {
 		tn, ok := scope.Lookup(name).(*types.TypeName)
